@@ -334,15 +334,24 @@ def cmd_expect_update(pids):
         print("missing from build:", missing)
     metas = [(n, m) for n, m in metas if m is not None]
     tmo = int(os.environ.get("VERIF_HARNESS_TIMEOUT", "3600"))
-    res = kanitrack.run_many([m for _, m in metas], os.path.join(CACHE, "run", "expect-%d" % os.getpid()), tmo)
-    for (n, m), r in zip(metas, res):
-        ob = sorted({c["name"] for c in r["checks"] if c["cls"] != "cover" and re.match(r"^C\d\d\.", c["name"]) and c["verdict"] in ("discharged", "refuted")})
-        cv = sorted({c["name"] for c in r["checks"] if c["cls"] == "cover" and c["verdict"] == "satisfied"})
-        unre = sorted({c["name"] for c in r["checks"] if c["cls"] != "cover" and re.match(r"^C\d\d\.", c["name"]) and c["verdict"] == "unreachable"})
-        print("%-60s %-9s %6.1fs obligations=%d covers=%d%s%s" % (n, r["status"], r["seconds"], len(ob), len(cv),
-              (" UNREACHABLE:" + ",".join(unre)) if unre else "", (" " + r.get("reason", "")) if r["status"] == "undecided" else ""))
-        if r["status"] in ("ok", "failed"):
-            exp[n] = dict(obligations=ob, covers=cv, seconds=round(r["seconds"], 1), status=r["status"])
+    from concurrent.futures import ThreadPoolExecutor, as_completed
+    wd = os.path.join(CACHE, "run", "expect-%d" % os.getpid())
+    jobs = int(os.environ.get("VERIF_JOBS", "6"))
+    with ThreadPoolExecutor(max_workers=jobs) as ex:
+        futs = {ex.submit(kanitrack.run_harness, m, wd, tmo): n for n, m in metas}
+        for fu in as_completed(futs):
+            n = futs[fu]
+            r = fu.result()
+            ob = sorted({c["name"] for c in r["checks"] if c["cls"] != "cover" and re.match(r"^C\d\d\.", c["name"]) and c["verdict"] in ("discharged", "refuted")})
+            cv = sorted({c["name"] for c in r["checks"] if c["cls"] == "cover" and c["verdict"] == "satisfied"})
+            unre = sorted({c["name"] for c in r["checks"] if c["cls"] != "cover" and re.match(r"^C\d\d\.", c["name"]) and c["verdict"] == "unreachable"})
+            bad = sorted({c["name"] + "@" + os.path.basename(c["file"]) + ":" + str(c["line"]) for c in r["checks"] if c["verdict"] in ("refuted", "unsatisfiable")})
+            print("%-60s %-9s %6.1fs obligations=%d covers=%d%s%s%s" % (n, r["status"], r["seconds"], len(ob), len(cv),
+                  (" UNREACHABLE:" + ",".join(unre)) if unre else "", (" " + r.get("reason", "")[:300]) if r["status"] == "undecided" else "",
+                  (" BAD:" + ",".join(bad)[:600]) if bad else ""), flush=True)
+            if r["status"] in ("ok", "failed"):
+                exp[n] = dict(obligations=ob, covers=cv, seconds=round(r["seconds"], 1), status=r["status"])
+                write_json(p, exp)
     write_json(p, exp)
     return 0
 
